@@ -33,7 +33,10 @@ func (p PatternSchema) ReflectedType() reflect.Type {
 func (p PatternSchema) Unserialize(data any) (any, error) {
 	str, err := stringInputMapper(data)
 	if err != nil {
-		return nil, err
+		return nil, &ConstraintError{
+			Message: fmt.Sprintf("%T is not a valid data type for a pattern schema", data),
+			Cause:   err,
+		}
 	}
 	pattern, err := regexp.Compile(str)
 	if err != nil {
